@@ -42,13 +42,26 @@ def _asc_key(draw, n):
 
 @st.composite
 def frame_cases(draw):
+    # decisive choices first (Hypothesis pins late draws to their first option for a share of its examples); sizes,
+    # data and keys afterwards
+    iface = draw(st.sampled_from(['assign', 'assign', 'assign', 'drop', 'mask', 'masked_array', 'astype', 'relabel', 'rename', 'insert', 'assign_bloc']))
+    route = draw(st.sampled_from(['iloc', 'loc', 'getitem']))
+    ch = {'vk': draw(st.sampled_from(['element', 'element', 'array', 'series', 'frame', 'frame', 'apply'])),
+          'el': draw(st.sampled_from(sorted(NEWVAL))), 'vdt': draw(st.sampled_from(['int64', 'float64', '<U2', 'bool', 'object'])),
+          'fill': draw(st.sampled_from([None, 'default', -1, 'ff'])), 'keep': draw(st.integers(0, 2 ** 12)),
+          'dt': draw(st.sampled_from(['int64', 'float64', 'object', 'bool', '<U8', 'float32', 'complex128'])),
+          'how': draw(st.sampled_from(['func', 'dict', 'list', 'auto'])), 'axis': draw(st.sampled_from(['index', 'columns', 'both'])),
+          'name': draw(st.sampled_from(['nn', None, ('a', 1), 0])), 'iname': draw(st.sampled_from(['__skip__', 'in', None])),
+          'after': draw(st.booleans()), 'ivk': draw(st.sampled_from(['series', 'frame'])),
+          'bv': draw(st.sampled_from(['element', 'array', 'frame', 'frame', 'series'])),
+          'vdts': draw(st.lists(st.sampled_from(['int64', 'float64', 'bool', '<U2', 'object']), min_size=1, max_size=4)),
+          'series_axis': draw(st.booleans())}
     rec = draw(gen.frame_recipe(min_rows=1, max_rows=5, min_cols=1, max_cols=6, kinds=KINDS,
                                 index_kinds=('auto', 'int', 'str', 'date'), column_kinds=('auto', 'int', 'str')))
     n, m = len(rec['index']['labels']), len(rec['columns']['labels'])
-    iface = draw(st.sampled_from(['assign', 'assign', 'assign', 'drop', 'mask', 'masked_array', 'astype', 'relabel', 'rename', 'insert', 'assign_bloc']))
-    case = {'rec': rec, 'iface': iface, 'route': draw(st.sampled_from(['iloc', 'loc', 'getitem']))}
+    case = {'rec': rec, 'iface': iface, 'route': route}
     if iface == 'assign':
-        vk = draw(st.sampled_from(['element', 'element', 'array', 'series', 'frame', 'frame', 'apply']))
+        vk = ch['vk']
         case['vk'] = vk
         if vk in ('array',):
             case['rk'], case['ck'] = _asc_key(draw, n), _asc_key(draw, m)
@@ -57,38 +70,29 @@ def frame_cases(draw):
             case['rk'], case['ck'] = draw(gen.iloc_key(n, allow_scalar=False)), draw(gen.iloc_key(m, allow_scalar=False))
         elif vk == 'series':
             # a Series value needs a one-dimensional selection: exactly one scalar key
-            if draw(st.booleans()):
+            if ch['series_axis']:
                 case['rk'], case['ck'] = draw(st.integers(-n, n - 1)), draw(gen.iloc_key(m, allow_scalar=False))
             else:
                 case['rk'], case['ck'] = draw(gen.iloc_key(n, allow_scalar=False)), draw(st.integers(-m, m - 1))
         else:
             case['rk'], case['ck'] = draw(gen.iloc_key(n)), draw(gen.iloc_key(m))
-        case['el'] = draw(st.sampled_from(sorted(NEWVAL)))
-        case['vdt'] = draw(st.sampled_from(['int64', 'float64', '<U2', 'bool', 'object']))
-        case['keep'] = draw(st.integers(0, 2 ** 12))
-        case['fill'] = draw(st.sampled_from([None, 'default', -1, 'ff']))
+        case['el'], case['vdt'], case['keep'], case['fill'] = ch['el'], ch['vdt'], ch['keep'], ch['fill']
     elif iface in ('drop', 'mask', 'masked_array'):
         case['rk'], case['ck'] = draw(st.one_of(st.none(), gen.iloc_key(n))), draw(st.one_of(st.none(), gen.iloc_key(m)))
     elif iface == 'astype':
         case['ck'] = draw(st.one_of(st.none(), gen.iloc_key(m)))
-        case['dt'] = draw(st.sampled_from(['int64', 'float64', 'object', 'bool', '<U8', 'float32', 'complex128']))
+        case['dt'] = ch['dt']
     elif iface == 'relabel':
-        case['how'] = draw(st.sampled_from(['func', 'dict', 'list', 'auto']))
-        case['axis'] = draw(st.sampled_from(['index', 'columns', 'both']))
-        case['keep'] = draw(st.integers(0, 2 ** 12))
+        case['how'], case['axis'], case['keep'] = ch['how'], ch['axis'], ch['keep']
     elif iface == 'rename':
-        case['name'] = draw(st.sampled_from(['nn', None, ('a', 1), 0]))
-        case['iname'] = draw(st.sampled_from(['__skip__', 'in', None]))
+        case['name'], case['iname'] = ch['name'], ch['iname']
     elif iface == 'insert':
         case['pos'] = draw(st.integers(0, m - 1))
-        case['after'] = draw(st.booleans())
-        case['vk'] = draw(st.sampled_from(['series', 'frame']))
-        case['vdt'] = draw(st.sampled_from(['int64', 'float64', '<U2', 'bool', 'object']))
-        case['keep'] = draw(st.integers(0, 2 ** 12))
-        case['fill'] = draw(st.sampled_from(['default', -1, 'ff', None]))
+        case['after'], case['vk'], case['vdt'], case['keep'] = ch['after'], ch['ivk'], ch['vdt'], ch['keep']
+        case['fill'] = ch['fill'] if ch['fill'] is not None else 'default'
     else:
         case['mask'] = np.array(draw(st.lists(st.booleans(), min_size=n * m, max_size=n * m)), dtype=bool).reshape(n, m)
-        case['el'] = draw(st.sampled_from(sorted(NEWVAL)))
+        case['el'], case['bv'], case['vdts'], case['keep'] = ch['el'], ch['bv'], ch['vdts'], ch['keep']
     return case
 
 
@@ -242,17 +246,61 @@ def check_frame(case):
         classes.append('value:' + vk)
     elif iface == 'assign_bloc':
         mask = case['mask']
-        v = NEWVAL[case['el']]
-        for j in range(m):
-            for i in range(n):
-                if mask[i, j]:
-                    exp_cols[j][i] = v
-            if mask[:, j].any():
-                untouched.discard(j)
-                exp_dt[j] = None
+        bv = case.get('bv', 'element')
         addressed_cells = int(mask.sum())
         if not addressed_cells:
             raise Discard('empty mask')
+        data = None
+        if bv == 'element':
+            v = NEWVAL[case['el']]
+        elif bv == 'array':
+            # an array of the container's shape: the cells under the mask are taken from it
+            vdt = case['vdts'][0]
+            arr = _arr(_vals(n * m, vdt, 3), vdt).reshape(n, m)
+            v = arr
+            data = {(i, j): arr_list(arr[:, j])[i] for i in range(n) for j in range(m)}
+        elif bv == 'frame':
+            # a Frame aligned by label: rows reversed, rows/columns possibly missing, per-column dtypes;
+            # masked cells the value does not cover stay as they are
+            keep_r = [i for i in range(n) if (case['keep'] >> i) & 1][::-1] or list(range(n))[::-1]
+            keep_c = [j for j in range(m) if (case['keep'] >> (j + 6)) & 1] or list(range(m))
+            if (case['keep'] >> 5) & 1:
+                keep_c = keep_c[::-1]
+            data = {}
+            items = []
+            for qj, j in enumerate(keep_c):
+                vdt = case['vdts'][qj % len(case['vdts'])]
+                arr = _arr(_vals(len(keep_r), vdt, qj), vdt)
+                items.append((clr[j], arr))
+                for qi, i in enumerate(keep_r):
+                    data[(i, j)] = arr_list(arr)[qi]
+            rix = [ilr[p] for p in keep_r]
+            v = sf.Frame.from_items(items, index=sf.IndexDate(rix) if isinstance(rix[0], np.datetime64) else rix)
+        else:
+            # a Series keyed by (row label, column label), as a bloc selection returns it, in scrambled order
+            coords = [(i, j) for i in range(n) for j in range(m) if mask[i, j]]
+            coords = coords[::-1] if (case['keep'] & 1) else coords[1:] + coords[:1]
+            vdt = case['vdts'][0]
+            arr = _arr(_vals(len(coords), vdt, 7), vdt)
+            data = dict(zip(coords, arr_list(arr)))
+            if any(isinstance(x, tuple) for x in ilr) or any(isinstance(x, tuple) for x in clr):
+                raise Discard('tuple labels inside coordinate tuples')
+            ixl = [(ilr[i], clr[j]) for (i, j) in coords]
+            v = sf.Series(arr, index=sf.Index(ixl) if len(ixl) else None)
+        for j in range(m):
+            hit = False
+            for i in range(n):
+                if mask[i, j]:
+                    if data is None:
+                        exp_cols[j][i] = v
+                        hit = True
+                    elif (i, j) in data:
+                        exp_cols[j][i] = data[(i, j)]
+                        hit = True
+            if mask[:, j].any():
+                untouched.discard(j)
+                exp_dt[j] = None
+        classes.append('bloc-value:' + bv)
         key = mask if route != 'loc' else sf.Frame(mask, index=f.index, columns=f.columns)
         r = lib(lambda: f.assign.bloc[key](v))
     elif iface in ('drop', 'mask', 'masked_array'):
